@@ -68,3 +68,9 @@
             old(state)@.contains_key(key) && old(state)@[key] is Set ==> exists|l: &mut HashSet<String>| *l == old(state)@[key]->Set_0 && handler.ensures((l,), r)
                 && final(state)@.contains_key(key) && final(state)@[key] is Set && final(state)@[key]->Set_0 == *final(l) && final(state)@.remove(key) =~= old(state)@.remove(key),
     { unimplemented!() }
+    // @proved-in state get_as_string
+    #[verifier::external_body]
+    pub(crate) fn get_as_string(state_value: &StateValue) -> (r: Result<String, String>)
+        ensures r is Ok <==> as_string_spec(*state_value) is Some,
+            r is Ok ==> Some(r->Ok_0@) == as_string_spec(*state_value),
+    { unimplemented!() }
